@@ -697,7 +697,7 @@ def check_c10(tier, seed, replay):
         import glob
         for rp in glob.glob(os.path.join(vlib.REPLAYS, 'C10', '%s-p*.replay' % seed)):
             body = [l.rstrip('\n') for l in open(rp) if not l.startswith('#')]
-            notes_cpp = ['# C++: %s' % matchergen.LINE2CPP[l] for l in body if l in matchergen.LINE2CPP]
+            notes_cpp = ['# C++ (one of): %s' % '   |   '.join(matchergen.LINE2CPP[l]) for l in body if l in matchergen.LINE2CPP]
             if notes_cpp:
                 with open(rp, 'a') as fh:
                     fh.write('\n'.join(notes_cpp) + '\n')
